@@ -416,6 +416,42 @@ func judgeC06Literal(c *core.Case, cfg *core.Config) core.Verdict {
 		v.Violation = fmt.Sprintf("run budget %d: compiled while the budget was %d the run gives %s, compiled under the default budget it gives %s", rb, cb, runOut{out1, rerr1, nil}, runOut{out0, rerr0, nil})
 		return v
 	}
+	// a run that completes returns the right value, however the range was (or was not) built
+	if rerr1 == nil && c.P["shape"] != nil {
+		lo, shape, I := int64(c.Int("lo")), c.Int("shape"), int64(spec.I)
+		var want interface{}
+		switch shape {
+		case 0, 2:
+			want = int(n)
+		case 1:
+			want = int(n + I)
+		case 3:
+			k := lo + n - 1 - I // elements lo..lo+n-1 that are > I
+			if k > n {
+				k = n
+			}
+			if k < 0 {
+				k = 0
+			}
+			want = int(k)
+		case 4:
+			want = 2
+		case 5:
+			want = int(I)
+		case 6:
+			want = false
+		case 7:
+			want = true
+		}
+		if c.Bool("full") {
+			v.Violation = fmt.Sprintf("the length of the whole int64 range is no int, yet the run completes with %s", core.Show(out1))
+			return v
+		}
+		if !core.Equiv(out1, want) {
+			v.Violation = fmt.Sprintf("the run completes with %s, the value is %s", core.Show(out1), core.Show(want))
+			return v
+		}
+	}
 	if !opt {
 		want := int64(c.Int("total")) < int64(rb)
 		if want != (rerr1 == nil) {
@@ -443,11 +479,12 @@ func genC06Literal(t *rapid.T) *core.Case {
 	c.Source = fmt.Sprintf([]string{"len(%s)", "len(%s) + I", "len(map(%s, {I}))", "count(%s, {# > I})", "len([%s, 1])",
 		"1 > 2 ? len(%s) : I", "1 > 2 and len(%s) > 0", "len(Xs) >= 0 or len(%s) > 0"}[shape], rng)
 	c.P["n"] = n
+	c.P["lo"], c.P["shape"] = lo, shape
 	c.P["total"] = []int{n, n, 2 * n, n, n + 2, 0, 0, 0}[shape] // elements created: the range, plus the map result / the array
 	if shape < 5 && rapid.IntRange(0, 9).Draw(t, "fullrange") == 0 {
 		// the whole int64 range as constants: more elements than any budget
 		c.Source = "len((-9223372036854775807 - 1)..9223372036854775807)"
-		c.P["n"], c.P["total"] = 1<<62, 1<<62
+		c.P["n"], c.P["total"], c.P["full"] = 1<<62, 1<<62, true
 	}
 	c.P["cb"] = rapid.SampledFrom([]int{1, 100, 1000000, 3000000}).Draw(t, "cb")
 	c.P["rb"] = rapid.SampledFrom([]int{1, 100, 101, 1000000, 1000001, 3000000}).Draw(t, "rb")
